@@ -118,6 +118,27 @@ def do_minify_rule(S: bytes, m: str, force_set: bool, force_val: str) -> bool:
     return r == mb and len(mb) <= len(S)
 
 
+def two_identical_files(S: bytes, m: str, T: bytes, first_dir: bool) -> bool:
+    """
+    pre: len(S) <= 3 and len(T) <= 3
+    pre: len(m) <= 2
+    post: _
+    """
+    # one in-place run over several files, two of them byte-identical: every file obeys the size rule on its own
+    # (the API result for a source is a function of the source: the stub returns m for S and "" otherwise)
+    try:
+        mb = m.encode('utf-8')
+    except UnicodeEncodeError:
+        return True
+    env = Env(fs=[['d/a.py', S], ['d/b.py', S], ['c.py', T]], dirs=[['d', [('d', [], ['a.py', 'b.py'])]]])
+    args = namespace(['d', 'c.py'] if first_dir else ['c.py', 'd'], in_place=True)
+    with env.installed(args=args, minify=lambda source, **kw: (m if source == S else '')) as main_mod:
+        main_mod.main()
+    exp_s = S if len(mb) > len(S) else mb
+    exp_t = exp_s if T == S else b''
+    return env.fs['d/a.py'] == exp_s and env.fs['d/b.py'] == exp_s and env.fs['c.py'] == exp_t
+
+
 def public_size_rule(mode, S, m, force_set=False, force_val=''):
     """Replay with the real CLI in a subprocess on a real temporary directory.
 
@@ -170,6 +191,8 @@ def obligations(tier, seed):
              bounds='|S| <= %d bytes, |m| <= %d code points, override absent/any 0-1 char string, mode=%s' % (n, k, MODES)),
         dict(name='C14.size_rule.twin', fn='size_rule_twin', shards=[['mode == %d' % md] for md in (0, 2)], timeout=t,
              expect='refuted', bounds='reachability twin (pass-through branch reachable)'),
+        dict(name='C14.two_identical_files', fn='two_identical_files', shards=[['first_dir == %s' % b] for b in (True, False)], timeout=t,
+             bounds='three files, two byte-identical, |S|,|T| <= 3 bytes, |m| <= 2 code points, in-place'),
         dict(name='C14.do_minify', fn='do_minify_rule', shards=[['len(S) <= %d' % (n + 1), 'len(m) <= %d' % (k + 1)]],
              timeout=t, bounds='|S| <= %d, |m| <= %d' % (n + 1, k + 1)),
     ]
